@@ -155,6 +155,7 @@ def _run(mod, args, seed, t0):
             known_hits[e["what"]] += 1
         else:
             unknown.append((key, v))
+    nonrepro = 0
     if unknown:
         # confirm every unlisted violation in fresh interpreters before reporting it
         rrs = pool.run_tasks(mod.ENGINE, [{"kind": "replay", "scenario": v["scenario"]} for _, v in unknown],
@@ -168,11 +169,15 @@ def _run(mod, args, seed, t0):
                 with open(dump, "w") as fp:
                     json.dump({"property": mod.PROP, "engine": mod.ENGINE, "signature": v["signature"], "message": v["message"], "scenario": v["scenario"],
                                "replayed": rr.get("violations", [])}, fp, indent=1)
-                raise HarnessError("violation %s did not reproduce on replay in a fresh interpreter (scenario dumped to %s)" % (key, dump))
+                print("HARNESS-WARNING property=%s violation %s did not reproduce on replay in a fresh interpreter (scenario dumped to %s); not reported" % (mod.PROP, key, dump))
+                nonrepro += 1
+                continue
             path = write_replay(mod.PROP, v)
             n_viol += 1
             lines.append("VIOLATION property=%s replay=%s" % (mod.PROP, path))
             print("violation: %s :: %s" % (key, v["message"][:600]))
+    if nonrepro and not n_viol:
+        raise HarnessError("%d violation(s) found by the search did not reproduce on replay and none did" % nonrepro)
     for what in sorted(known_hits):
         print("KNOWN-FINDING: property=%s %s" % (mod.PROP, what))
     for ln in lines:
